@@ -168,7 +168,7 @@ func (d *Decoder) DecodeString() (string, error) {
 	if d.offset >= len(d.p) {
 		return "", io.ErrUnexpectedEOF
 	}
-	b, err := d.DecodeBytes()
+	b, err := d.decodeBytes()
 	if err != nil {
 		return "", fmt.Errorf("invalid data at byte %d: %w", d.offset, err)
 	}
@@ -184,8 +184,21 @@ func (d *Decoder) DecodeString() (string, error) {
 
 // DecodeBytes decodes a length-delimited slice of bytes from the stream and returns the value.
 //
+// In DecoderModeSafe the result is a copy; in DecoderModeFast it is a sub-slice of the data
+// passed to the decoder.
+//
 // io.ErrUnexpectedEOF is returned if the operation would read past the end of the data.
 func (d *Decoder) DecodeBytes() ([]byte, error) {
+	b, err := d.decodeBytes()
+	if err != nil || d.mode == DecoderModeFast {
+		return b, err
+	}
+	// safe mode: the caller may modify or reuse the input buffer afterwards
+	return append([]byte{}, b...), nil
+}
+
+// decodeBytes decodes a length-delimited field and returns the value as a sub-slice of the input.
+func (d *Decoder) decodeBytes() ([]byte, error) {
 	if d.offset >= len(d.p) {
 		return nil, io.ErrUnexpectedEOF
 	}
